@@ -10,8 +10,9 @@
      5. fuel sufficiency
      6. slot bound                                                 (C20)
      7. read options                                               (C04)
-     8. refinement Reader.i_next -> a_next under an explicit loader hypothesis
-     9. examples *)
+     8. refinement Reader.i_next -> a_next under an explicit loader hypothesis (loader_ok)
+     8b. the same for the log times of the returned messages (load_chunk_i, walk, yield opened)
+     9. examples, packaged statements for properties/C03.v C04.v C20.v, end-to-end corollaries *)
 From Coq Require Import List NArith ZArith Bool Lia ZifyN ZifyNat ZifyBool Permutation Sorted PeanoNat.
 From Coq.Strings Require Import Byte.
 From RecordUpdate Require Import RecordSet.
@@ -1968,6 +1969,42 @@ Proof.
   intro H. inversion H; subst. exists plain, new. cbn. rewrite E1, E2. auto.
 Qed.
 
+(* the decompression step of load_chunk_i *)
+Definition chunk_plain (dall : dalloracle) (k : chunk) : outcome bytes :=
+  if max_int32 <=? k_usize k then Err ELengthOutOfRange else
+  if bytes_eqb (k_comp k) [] then
+    (if blen (k_records k) =? k_usize k then Ok (k_records k) else Err EOther)
+  else if bytes_eqb (k_comp k) [x7a; x73; x74; x64] || bytes_eqb (k_comp k) [x6c; x7a; x34] then
+    match dall (k_comp k) (k_records k) (k_usize k) with
+    | Some p => if blen p =? k_usize k then Ok p else Err EOther
+    | None => Err EOther
+    end
+  else Err EOther.
+
+(* converse of load_chunk_i_shape: how the loader hypothesis is discharged for a concrete file.
+   Every premise except the last is a closed computation; the last one is closed up to the slot
+   number, which walk only copies into the entries. *)
+Lemma load_chunk_i_ok dall ro sm f ci s rec r' k plain new :
+  seek_ok (fs_size f) (ci_offset ci) = Ok tt ->
+  (ci_length ci <? 9) = false ->
+  (fs_size f - ci_offset ci <? ci_length ci) = false ->
+  rd_full (ci_length ci) (fs_stream f (ci_offset ci) true) = (rec, None, r') ->
+  parse_chunk (skipn 9 rec) = Ok k ->
+  chunk_plain dall k = Ok plain ->
+  walk ro sm (S (length plain)) plain 0 (islot s) [] = Ok new ->
+  exists s', load_chunk_i dall ro sm f ci s = Ok s' /\
+    i_slots s' = slot_set (i_slots s) (islot s) (N.of_nat (length new), plain) /\
+    i_queue s' = merge_queue (ro_order ro) (i_queue s) new.
+Proof.
+  intros H1 H2 H3 H4 H5 H6 H7. unfold load_chunk_i, bind. rewrite H1, H2, H3, H4, H5.
+  unfold chunk_plain in H6. rewrite H6.
+  set (s0 := if i_reccap s <? ci_length ci then _ else s).
+  assert (E1 : i_slots s0 = i_slots s) by (unfold s0; destruct (i_reccap s <? ci_length ci); reflexivity).
+  assert (E2 : i_queue s0 = i_queue s) by (unfold s0; destruct (i_reccap s <? ci_length ci); reflexivity).
+  clearbody s0. rewrite !E1. fold (islot s). rewrite H7.
+  eexists. split; [reflexivity|]. cbn. rewrite E1, E2. auto.
+Qed.
+
 Lemma nth_error_slot_set : forall (l : list (N * bytes)) i v k, (i <= length l)%nat ->
   nth_error (slot_set l i v) k = if (k =? i)%nat then Some v else nth_error l k.
 Proof.
@@ -2318,6 +2355,67 @@ Proof.
   - exists (2, 450). auto.
 Qed.
 
+(* ---- a byte-level instance of the refinement hypotheses ---- *)
+(* one uncompressed chunk at offset 8 holding three messages (log times 20, 25, 15; the second is
+   on channel 2, which is not selected) *)
+Definition xm1 : message := {| m_chan := 1; m_seq := 0; m_log := 20; m_pub := 20; m_data := [x61] |}.
+Definition xm2 : message := {| m_chan := 2; m_seq := 0; m_log := 25; m_pub := 25; m_data := [] |}.
+Definition xm3 : message := {| m_chan := 1; m_seq := 1; m_log := 15; m_pub := 15; m_data := [x62; x63] |}.
+Definition x_records : bytes :=
+  frame OpMessage (enc_message xm1) ++ frame OpMessage (enc_message xm2) ++ frame OpMessage (enc_message xm3).
+Definition x_chunk : chunk :=
+  {| k_start := 15; k_end := 25; k_usize := blen x_records; k_crc := 0; k_comp := []; k_records := x_records |}.
+Definition x_chunk_rec : bytes := frame OpChunk (enc_chunk x_chunk).
+Definition x_file : fsrc := {| fs_data := magic ++ x_chunk_rec ++ magic; fs_fail := None |}.
+Definition x_ci : chunkindex :=
+  {| ci_start := 15; ci_end := 25; ci_offset := 8; ci_length := 145; ci_mioffsets := [];
+     ci_milength := 0; ci_comp := []; ci_csize := 96; ci_usize := 96 |}.
+Definition x_ac : achunk :=
+  {| ac_start := 15; ac_end := 25; ac_off := 8; ac_msgs := [mk_msg 20 1 0; mk_msg 25 2 1; mk_msg 15 1 2] |}.
+Definition x_sm : summ :=
+  {| sm_schemas := [];
+     sm_channels := [(1, {| c_id := 1; c_schema := 0; c_topic := [x74]; c_menc := []; c_meta := [] |})];
+     sm_stats := None; sm_cis := [x_ci]; sm_ais := []; sm_mxs := []; sm_footer := None |}.
+Definition x_ro : ropts :=
+  {| ro_start := 0; ro_end := 0; ro_topics := []; ro_use_index := true; ro_order := LogTimeOrder;
+     ro_md_cb := false; ro_start_n := 0; ro_end_n := max_u64; ro_unbounded := true |}.
+Definition x_dall : dalloracle := fun _ _ _ => None.
+Definition x_sel : amsg -> bool := tw_sel (sm_channels x_sm) x_ro.
+Definition x_pairs : list (chunkindex * achunk) := [(x_ci, x_ac)].
+Definition x_s0 : istate :=
+  {| i_cis := ci_sort (ro_order x_ro) [x_ci]; i_queue := []; i_slots := []; i_reccap := 0; i_allocs := [] |}.
+
+Example x_loader_ok : loader_ok x_dall x_ro x_sm x_file x_sel x_pairs.
+Proof.
+  intros ci c s [E|[]]. inversion E; subst ci c. clear E.
+  destruct (load_chunk_i_ok x_dall x_ro x_sm x_file x_ci s
+              (take 145 (drop 8 (fs_data x_file)))
+              {| r_buf := drop 145 (drop 8 (fs_data x_file)); r_end := None; r_seek := true |}
+              x_chunk x_records
+              [ {| en_ts := 20; en_off := 0; en_slot := islot s |};
+                {| en_ts := 15; en_off := 63; en_slot := islot s |} ]) as (s' & Hl & Hs & Hq);
+    try (vm_compute; reflexivity).
+  exists s', [ {| en_ts := 20; en_off := 0; en_slot := islot s |}; {| en_ts := 15; en_off := 63; en_slot := islot s |} ].
+  split; [exact Hl|]. split.
+  - vm_compute. repeat constructor.
+  - split; [exact Hq|]. rewrite Hs, slot_set_map. reflexivity.
+Qed.
+Example x_matches : Forall2 (ci_match x_pairs) [x_ci] [x_ac] /\ st_match x_pairs x_s0 (a_init (ac_sort LogTimeOrder [x_ac])).
+Proof.
+  assert (M : ci_match x_pairs x_ci x_ac) by (split; [left; reflexivity|repeat split]).
+  split; [constructor; [exact M|constructor]|].
+  split; [cbn; constructor; [exact M|constructor]|]. split; [constructor|reflexivity].
+Qed.
+(* the byte-level read of the file ends with io.EOF after two messages with log times 15, 20;
+   one slot *)
+Example x_indexed_all :
+  match indexed_all x_dall 4 4 x_ro x_sm x_file x_s0 [] (O, O) with
+  | Ok (ms, e, st) => Some (map log_of ms, e, st)
+  | _ => None
+  end = Some ([15; 20], EEOF, (1, 1)%nat) /\
+  uids (a_read x_sel LogTimeOrder 4 4 [x_ac]) = Some ([2; 0]%nat, (1, 1)%nat).
+Proof. vm_compute. split; reflexivity. Qed.
+
 (* packaged statements used by the property files *)
 Theorem C03_load_order_logtime_thm : forall l,
   Permutation (ac_sort LogTimeOrder l) l /\
@@ -2339,3 +2437,73 @@ Theorem C20_max_overlap_meaning_thm : forall cks,
   (forall p, (overlap_at cks p <= max_overlap cks)%nat) /\
   (max_overlap cks = O \/ exists p, overlap_at cks p = max_overlap cks).
 Proof. intro cks. exact (conj (overlap_at_le_max cks) (max_overlap_attained cks)). Qed.
+
+(* ---- end-to-end corollaries: the byte-level indexed read under the loader hypothesis ---- *)
+Definition i_init (ro : ropts) (cis : list chunkindex) : istate :=
+  {| i_cis := ci_sort (ro_order ro) cis; i_queue := []; i_slots := []; i_reccap := 0; i_allocs := [] |}.
+
+Theorem C03_indexed_time_thm : forall dall ro sm f sel pairs d fuel n cis cks ms st,
+  loader_ok dall ro sm f sel pairs -> ro_order ro = order_of d ->
+  Forall2 (ci_match pairs) cis cks -> chunks_wf cks ->
+  indexed_all dall fuel n ro sm f (i_init ro cis) [] (O, O) = Ok (ms, EEOF, st) ->
+  StronglySorted (fun a b => led d a b) (map log_of ms) /\
+  Permutation (map log_of ms) (map am_ts (filter sel (all_msgs cks))).
+Proof.
+  intros dall ro sm f sel pairs d fuel n cis cks ms st HL Ho Hm Hw H.
+  destruct (indexed_read_refines_thm dall ro sm f sel pairs HL fuel n cis cks ms st Hm H) as (out & Hr & Hl).
+  rewrite Hl, Ho in *. split.
+  - destruct (a_read_time sel d _ _ _ _ _ Hw Hr) as (S & _ & _). apply StronglySorted_map. exact S.
+  - apply Permutation_map. eapply a_read_perm; exact Hr.
+Qed.
+
+Theorem C20_indexed_slots_thm : forall dall ro sm f sel pairs d fuel n cis cks ms st,
+  loader_ok dall ro sm f sel pairs -> ro_order ro = order_of d ->
+  Forall2 (ci_match pairs) cis cks -> chunks_wf cks -> ranges_ok cks -> NoDup (map ac_off cks) ->
+  indexed_all dall fuel n ro sm f (i_init ro cis) [] (O, O) = Ok (ms, EEOF, st) ->
+  (fst st <= Nat.max 1 (max_overlap cks))%nat /\ (snd st <= Nat.max 1 (max_overlap cks))%nat.
+Proof.
+  intros dall ro sm f sel pairs d fuel n cis cks ms st HL Ho Hm Hw Hr Hnd H.
+  destruct (indexed_read_refines_thm dall ro sm f sel pairs HL fuel n cis cks ms st Hm H) as (out & Hrd & _).
+  rewrite Ho in Hrd. destruct (C20_slots_time_thm sel d cks Hw Hr Hnd) as [_ Hst]. eapply Hst; exact Hrd.
+Qed.
+
+Theorem C20_indexed_slots_file_thm : forall dall ro sm f sel pairs fuel n cis cks ms st,
+  loader_ok dall ro sm f sel pairs -> ro_order ro = FileOrder ->
+  Forall2 (ci_match pairs) cis cks ->
+  indexed_all dall fuel n ro sm f (i_init ro cis) [] (O, O) = Ok (ms, EEOF, st) ->
+  (fst st <= 1)%nat /\ (snd st <= 1)%nat.
+Proof.
+  intros dall ro sm f sel pairs fuel n cis cks ms st HL Ho Hm H.
+  destruct (indexed_read_refines_thm dall ro sm f sel pairs HL fuel n cis cks ms st Hm H) as (out & Hrd & _).
+  rewrite Ho in Hrd. destruct (C20_slots_file_thm sel cks) as [_ Hst]. eapply Hst; exact Hrd.
+Qed.
+
+Example x_end_to_end_hyps :
+  loader_ok x_dall x_ro x_sm x_file x_sel x_pairs /\ ro_order x_ro = order_of true /\
+  Forall2 (ci_match x_pairs) [x_ci] [x_ac] /\ chunks_wf [x_ac] /\ ranges_ok [x_ac] /\ NoDup (map ac_off [x_ac]) /\
+  exists ms st, indexed_all x_dall 4 4 x_ro x_sm x_file (i_init x_ro [x_ci]) [] (O, O) = Ok (ms, EEOF, st).
+Proof.
+  split; [exact x_loader_ok|]. split; [reflexivity|]. split; [apply x_matches|].
+  split; [apply chunks_wfb_ok; vm_compute; reflexivity|].
+  split; [apply ranges_okb_ok; vm_compute; reflexivity|].
+  split; [apply nodupNb_ok; vm_compute; reflexivity|].
+  destruct (indexed_all x_dall 4 4 x_ro x_sm x_file (i_init x_ro [x_ci]) [] (O, O)) as [[[ms e] st]| | | |] eqn:E;
+    try (vm_compute in E; discriminate).
+  exists ms, st. assert (e = EEOF) as ->; [|reflexivity].
+  vm_compute in E. inversion E. reflexivity.
+Qed.
+
+Theorem C20_slots_logtime_thm : forall (sel : amsg -> bool) cks,
+  chunks_wf cks -> ranges_ok cks -> NoDup (map ac_off cks) ->
+  (forall out s, arun sel LogTimeOrder (a_init (ac_sort LogTimeOrder cks)) out s ->
+     (length (a_slots s) <= Nat.max 1 (max_overlap cks))%nat) /\
+  (forall fuel n out st, a_read sel LogTimeOrder fuel n cks = Some (out, st) ->
+     (fst st <= Nat.max 1 (max_overlap cks))%nat /\ (snd st <= Nat.max 1 (max_overlap cks))%nat).
+Proof. exact (fun sel => C20_slots_time_thm sel true). Qed.
+Theorem C20_slots_reverse_thm : forall (sel : amsg -> bool) cks,
+  chunks_wf cks -> ranges_ok cks -> NoDup (map ac_off cks) ->
+  (forall out s, arun sel ReverseLogTimeOrder (a_init (ac_sort ReverseLogTimeOrder cks)) out s ->
+     (length (a_slots s) <= Nat.max 1 (max_overlap cks))%nat) /\
+  (forall fuel n out st, a_read sel ReverseLogTimeOrder fuel n cks = Some (out, st) ->
+     (fst st <= Nat.max 1 (max_overlap cks))%nat /\ (snd st <= Nat.max 1 (max_overlap cks))%nat).
+Proof. exact (fun sel => C20_slots_time_thm sel false). Qed.
